@@ -782,7 +782,17 @@ func (r *runner) runSrv(f []string) string {
 		if !ok {
 			return "bad-op"
 		}
-		return s.raceGoAway(b)
+		return s.raceGoAway(b, nil)
+	case "racega2": // as racega, in a forced order: <hex1> until the stream loop waits for the GOAWAY lock, then <hex2> until the read loop does
+		if len(f) != 5 {
+			return "bad-op"
+		}
+		b1, ok1 := unhex(f[3])
+		b2, ok2 := unhex(f[4])
+		if !ok1 || !ok2 {
+			return "bad-op"
+		}
+		return s.raceGoAway(b1, b2)
 	case "sleep": // real time passes (the request timeout of a connection made with rt=<ms> fires); what the server did meanwhile
 		ms, _ := strconv.Atoi(f[3])
 		time.Sleep(time.Duration(ms) * time.Millisecond)
@@ -877,7 +887,18 @@ func leftBehind() (int, string) {
 // raceGoAway forces the one interleaving the serial stepping never produces: the idle timer's goroutine has read
 // lastID for its GOAWAY and has not queued the frame yet; meanwhile the stream loop deals with the frames in b (a
 // new request, say). Then the timer goes on. What the peer sees is judged by the GOAWAY monitor.
-func (s *srvConn) raceGoAway(b []byte) string {
+// parkedOnMutex: some goroutine is waiting for a mutex inside the named method of the server connection
+func parkedOnMutex(method string) bool {
+	buf := make([]byte, 1<<20)
+	for _, g := range strings.Split(string(buf[:runtime.Stack(buf, true)]), "\n\n") {
+		if strings.Contains(g, "[sync.Mutex.Lock") && strings.Contains(g, "(*serverConn)."+method) {
+			return true
+		}
+	}
+	return false
+}
+
+func (s *srvConn) raceGoAway(b []byte, then []byte) string {
 	if s.returned {
 		return "out gone"
 	}
@@ -902,7 +923,17 @@ func (s *srvConn) raceGoAway(b []byte) string {
 	s.mc.in.write(b)
 	// until a handler has been entered for it, or it is clear that none will be while the timer is held
 	for i := 0; i < 300 && s.enteredN() == before; i++ {
+		if then != nil && parkedOnMutex("handleStreams") {
+			break
+		}
 		time.Sleep(time.Millisecond)
+	}
+	if then != nil {
+		// the stream loop is first in line for the lock; now the read loop queues up behind it
+		s.mc.in.write(then)
+		for i := 0; i < 300 && !parkedOnMutex("readLoop"); i++ {
+			time.Sleep(time.Millisecond)
+		}
 	}
 	close(release)
 	http2.VerifYieldFn.Store(nil)
